@@ -31,7 +31,7 @@ func TestMain(m *testing.M) {
 
 // Op is one hostile step.
 type Op struct {
-	Kind    string `json:"kind"` // frame | reg | flood | floodnoread | halfframe | terminate | unregister | dirinfo | regburst | multiflood
+	Kind    string `json:"kind"` // frame | reg | flood | floodnoread | halfframe | terminate | unregister | dirinfo | regburst | multiflood | postflood
 	Svc     string `json:"svc"`  // pong | bomb | dir | unknown
 	Obj     int    `json:"obj"`  // 0: object 1; 1..: sacrificial object; -1: wrong id
 	Action  uint32 `json:"action"`
@@ -93,7 +93,7 @@ var dirActions = []uint32{100, 101, 102, 104, 105, 108, 0, 1, 2, 5, 6}
 func genCase(t *rapid.T) Case {
 	var c Case
 	n := rapid.IntRange(2, 25).Draw(t, "n")
-	kinds := []string{"frame", "frame", "frame", "frame", "reg", "reg", "reg", "dirinfo", "flood", "halfframe", "terminate", "unregister", "regburst", "multiflood"}
+	kinds := []string{"frame", "frame", "frame", "frame", "reg", "reg", "reg", "dirinfo", "flood", "halfframe", "terminate", "unregister", "regburst", "multiflood", "postflood"}
 	if vt.Thorough() {
 		kinds = append(kinds, "floodnoread")
 	}
@@ -137,6 +137,14 @@ func genCase(t *rapid.T) Case {
 			op.Type = rapid.SampledFrom([]uint8{1, 1, 4}).Draw(t, "ttype")
 		case "unregister":
 			op.Target = rapid.SampledFrom([]string{"pong", "bomb", "unknown", "dir"}).Draw(t, "target")
+		case "postflood":
+			// one-way messages (no reply expected) piled on a busy object:
+			// subscriptions with fresh ids, cancellations, or plain posts
+			op.Svc = rapid.SampledFrom([]string{"pong", "bomb", "dir"}).Draw(t, "psvc")
+			op.Obj = 0
+			op.N = rapid.SampledFrom([]int{15, 40, 120}).Draw(t, "posts")
+			op.Action = rapid.SampledFrom([]uint32{0, 0, 1, 101, 2}).Draw(t, "paction")
+			op.Stall = rapid.SampledFrom([]int{0, 5000, 30000}).Draw(t, "pstall")
 		case "regburst":
 			// connections which subscribe a few times, send all their
 			// unregisterEvent calls in one write and vanish without reading
@@ -397,6 +405,28 @@ func checkCase(c Case) error {
 			}
 			if w.terminated[id] != "yes" {
 				w.terminated[id] = state
+			}
+		case "postflood":
+			floods++
+			if op.Stall > 0 && op.Svc == "pong" {
+				h.Send(netkit.Frame{Type: netkit.Call, ID: h.NextID(), Service: sid, Object: 1, Action: 100, Payload: netkit.StringPayload(fmt.Sprintf("stall~%d", op.Stall))})
+			}
+			psignal := map[string]uint32{"dir": 106, "bomb": 100, "pong": 102}[op.Svc]
+			for k := 0; k < op.N; k++ {
+				var pl []byte
+				switch op.Action {
+				case 0, 1:
+					pl = binary.LittleEndian.AppendUint32(nil, 1)
+					pl = binary.LittleEndian.AppendUint32(pl, psignal)
+					pl = binary.LittleEndian.AppendUint64(pl, uint64(500000+1000*i+k))
+				case 2:
+					pl = []byte{1, 0, 0, 0}
+				default:
+					pl = netkit.StringPayload("quiet:p")
+				}
+				if h.Send(netkit.Frame{Type: netkit.Post, ID: h.NextID(), Service: sid, Object: 1, Action: op.Action, Payload: pl}) != nil {
+					break
+				}
 			}
 		case "regburst":
 			floods++
